@@ -1441,6 +1441,7 @@ void SPxMainSM<R>::AggregationPS::execute(VectorBase<R>& x, VectorBase<R>& y, Ve
    // primal:
    R val = 0.0;
    R aij = m_row[m_j];
+   R aik = 0.0;
    int active_idx = -1;
 
    assert(m_row.size() == 2);
@@ -1450,7 +1451,8 @@ void SPxMainSM<R>::AggregationPS::execute(VectorBase<R>& x, VectorBase<R>& y, Ve
       if(m_row.index(k) != m_j)
       {
          active_idx = m_row.index(k);
-         val = m_row.value(k) * x[active_idx];
+         aik = m_row.value(k);
+         val = aik * x[active_idx];
       }
    }
 
@@ -1497,13 +1499,30 @@ void SPxMainSM<R>::AggregationPS::execute(VectorBase<R>& x, VectorBase<R>& y, Ve
    r[m_j] = 0.0;
 
    // basis:
-   if(((cStatus[active_idx] == SPxSolverBase<R>::ON_UPPER
-         || cStatus[active_idx] == SPxSolverBase<R>::FIXED)
-         && NE(x[active_idx], m_oldupper, this->feastol())) ||
-         ((cStatus[active_idx] == SPxSolverBase<R>::ON_LOWER
-           || cStatus[active_idx] == SPxSolverBase<R>::FIXED)
-          && NE(x[active_idx], m_oldlower, this->feastol())))
+   // x_k (the remaining variable) may stay nonbasic only on a bound it also had before the aggregation; if its
+   // bounds were tightened to a fixing, the sign of its reduced cost decides which of the old bounds can be used
+   bool atOldLower = (m_oldlower > R(-infinity)) && EQ(x[active_idx], m_oldlower, this->feastol());
+   bool atOldUpper = (m_oldupper < R(infinity)) && EQ(x[active_idx], m_oldupper, this->feastol());
+   bool fixedStaysLower = cStatus[active_idx] == SPxSolverBase<R>::FIXED && atOldLower
+                          && (r[active_idx] >= 0.0 || (atOldUpper && EQ(m_oldlower, m_oldupper, this->feastol())));
+   bool fixedStaysUpper = cStatus[active_idx] == SPxSolverBase<R>::FIXED && !fixedStaysLower && atOldUpper
+                          && r[active_idx] <= 0.0;
+
+   if(fixedStaysLower || fixedStaysUpper)
    {
+      if(!EQ(m_oldlower, m_oldupper, this->feastol()))
+         cStatus[active_idx] = fixedStaysLower ? SPxSolverBase<R>::ON_LOWER : SPxSolverBase<R>::ON_UPPER;
+
+      cStatus[m_j] = SPxSolverBase<R>::BASIC;
+   }
+   else if((cStatus[active_idx] == SPxSolverBase<R>::ON_UPPER && !atOldUpper)
+           || (cStatus[active_idx] == SPxSolverBase<R>::ON_LOWER && !atOldLower)
+           || cStatus[active_idx] == SPxSolverBase<R>::FIXED)
+   {
+      // x_k becomes basic and x_j nonbasic: the dual of row i has to make the reduced cost of x_k vanish instead
+      // of the one of x_j (r'_k = r_k + aggr_coef * r_j with aggr_coef = -aik / aij)
+      r[m_j] = -r[active_idx] * aij / aik;
+      y[m_i] = (m_obj - dualVal - r[m_j]) / aij;
       cStatus[active_idx] = SPxSolverBase<R>::BASIC;
       r[active_idx] = 0.0;
       assert(NE(m_upper, m_lower, this->epsilon()));
